@@ -183,7 +183,10 @@ pub(crate) mod split {
                 let got = SplittedString::split(s, colon);
                 let g = (got.preceding().to_string(), got.word().to_string(), got.trailing().to_string());
                 if g != exp {
-                    fails.push(json!({"clause": "C03 split == split_spec", "input": s, "include_colon": colon, "observed": [g.0, g.1, g.2], "expected": [exp.0, exp.1, exp.2]}));
+                    // the curved quotes are punctuation because smart quoting produces them: a displayed candidate is split again
+                    // when a choice is learned (C09) and the fixed method splits its own buffer (C17)
+                    let clause = if s.contains(|c| "\u{2018}\u{2019}\u{201C}\u{201D}".contains(c)) { "C17 C09 C03 split == split_spec (curved quotes are wrapping punctuation)" } else { "C03 split == split_spec" };
+                    fails.push(json!({"clause": clause, "input": s, "include_colon": colon, "observed": [g.0, g.1, g.2], "expected": [exp.0, exp.1, exp.2]}));
                 }
                 if !exp.1.is_empty() && (!exp.0.is_empty() || !exp.2.is_empty()) { nt += 1; }
             }
@@ -228,6 +231,14 @@ mod misc {
 }
 
 // ---------------------------------------------------------------------------------------------
+thread_local! {
+    static LAST_CALL: std::cell::RefCell<Value> = std::cell::RefCell::new(Value::Null);
+    static LAST_PANIC: std::cell::RefCell<String> = std::cell::RefCell::new(String::new());
+}
+pub(crate) fn note_panic(msg: String) { LAST_PANIC.with(|p| *p.borrow_mut() = msg); }
+/// the history whose last event was being executed when the engine was entered last, and the last panic message
+pub(crate) fn last_call() -> (Value, String) { (LAST_CALL.with(|l| l.borrow().clone()), LAST_PANIC.with(|p| p.borrow().clone())) }
+
 pub(crate) struct Sess {
     pub cfgv: Value,
     pub ctx: RitiContext,
@@ -240,6 +251,7 @@ impl Sess {
     }
     pub fn key(&mut self, c: char, sel: u8) -> Suggestion {
         self.events.push(json!({"key": c.to_string(), "sel": sel}));
+        self.note();
         self.ctx.get_suggestion_for_key(crate::verif_driver::keycode_of(c), 0, sel)
     }
     pub fn typ(&mut self, text: &str) -> Option<Suggestion> {
@@ -254,11 +266,13 @@ impl Sess {
     }
     pub fn code(&mut self, code: u16, sel: u8) -> Suggestion {
         self.events.push(json!({"key": code, "sel": sel}));
+        self.note();
         self.ctx.get_suggestion_for_key(code, 0, sel)
     }
     /// update_engine with a complete configuration (every option explicit)
     pub fn update(&mut self, cfgv: &Value) {
         self.events.push(json!({"update": cfgv}));
+        self.note();
         let cfg = make_config(cfgv);
         self.ctx.update_engine(&cfg);
     }
@@ -271,16 +285,20 @@ impl Sess {
     }
     pub fn bs(&mut self, ctrl: bool) -> Suggestion {
         self.events.push(json!({"backspace": ctrl}));
+        self.note();
         self.ctx.backspace_event(ctrl)
     }
     pub fn commit(&mut self, i: usize) {
         self.events.push(json!({"commit": i}));
+        self.note();
         self.ctx.candidate_committed(i)
     }
     pub fn finish(&mut self) {
         self.events.push(json!("finish"));
+        self.note();
         self.ctx.finish_input_session()
     }
+    fn note(&self) { let h = self.history(); LAST_CALL.with(|l| *l.borrow_mut() = h); }
     pub fn history(&self) -> Value {
         json!({"user_dir": std::env::var("XDG_DATA_HOME").unwrap_or_default(), "keep_files": true, "config": self.cfgv, "events": self.events})
     }
@@ -331,7 +349,7 @@ mod api {
             v.push(format!("{}:", w));
             v.push(format!("'{}?'", w));
         }
-        for e in [":)", ";)", "x)", "o=)", ":D", "<3", ":-))", ".", "...", "\"", "`", "`a", "a`", ":e", "\\", "^_^", "$", "a:`", "kothagulo", "seshgulo", "amake", "bisoyshombondhiyoo", "shok,,", ",,k", "(k,,)", "k,", "sad", "poRa"] { v.push(e.to_string()); }
+        for e in [":)", ";)", "x)", "o=)", ":D", "<3", ":-))", ".", "...", "\"", "`", "`a", "a`", ":e", "\\", "^_^", "$", "a:`", "kothagulo", "seshgulo", "amake", "bisoyshombondhiyoo", "shok,,", ",,k", "(k,,)", "k,", "sad", "poRa", "kotha.\"", "\"kotha..", "'k,,'", ".\"ami\"."] { v.push(e.to_string()); }
         v
     }
 
@@ -524,6 +542,37 @@ mod api {
                 o.sample(json!({"text": t, "list": list}));
             }
         }}}}
+        // data-guided corpus: every typeable key of autocorrect.json (quick: every 40th) plus words whose dictionary hits
+        // are spelled with a ZWNJ, typed key by key with suggestions on: C02 per key, the C07 list oracle at the end
+        {
+            let ac: std::collections::BTreeMap<String, String> = serde_json::from_str(&std::fs::read_to_string(format!("{}/autocorrect.json", crate::verif_driver::data_dir())).unwrap()).unwrap();
+            let mut words: Vec<String> = ac.keys().filter(|k| k.len() <= 14 && k.chars().all(|c| crate::verif_driver::has_key(c))).cloned().collect();
+            let step = if bound >= 2 { 1 } else { 40 };
+            words = words.into_iter().step_by(step).collect();
+            for w in ["inshaallah", "insaallah", "bismillah", "allah", "shah", "rik", "hissa"] { words.push(w.to_string()); }
+            let cfgv = phon_cfg(json!({"phonetic_suggestion": true, "include_english": false, "smart_quote": false, "ansi": false}));
+            for (k, w) in words.iter().enumerate() {
+                if k % nshards != shard { continue; }
+                o.cases += 1;
+                let mut s = Sess::new(cfgv.clone());
+                let mut typed = String::new();
+                let mut last = None;
+                let mut sel = 0u8;
+                let mut bad = false;
+                for c in w.chars() {
+                    typed.push(c);
+                    let sg = s.key(c, sel);
+                    if !sg.is_lonely() { sel = sg.previously_selected_index() as u8; }
+                    if let Some(e) = check_sg(&sg, Some(&typed)) { o.fail(json!({"clause": "C02 ".to_string() + &e, "history": s.history()})); bad = true; break; }
+                    last = Some(sg);
+                }
+                if bad { continue; }
+                let list = texts(&last.unwrap());
+                for clause in oracle.c07_order(&list, w, false) { o.fail(json!({"clause": clause, "history": s.history(), "observed": list})); }
+                for i in 0..list.len() { for j in 0..i { if list[i] == list[j] { o.fail(json!({"clause": "C07 no candidate text occurs twice", "history": s.history(), "observed": list})); } } }
+                o.nontrivial += 1;
+            }
+        }
         o.done()
     }
 
@@ -804,6 +853,32 @@ mod api {
             }));
             if r.is_err() { o.fail(json!({"clause": "C10 user auto-correct entries with empty strings (loaded by update_engine) never stop the keyboard (panic)", "history": {"config": cfgv, "events": "type zzqe; write autocorrect.json; update_engine; type zzqe, zzq, zzxe, e with commits", "autocorrect.json": doc}})); }
         }
+        // the user auto-correct list damaged / removed / replaced by a non-ASCII entry while a word is being composed; the
+        // configuration is re-loaded inside the composition and a candidate other than the preselected one is committed
+        for (name, after) in [("truncated", Some("{\"zzq\":\"ko")), ("empty", Some("")), ("removed", None), ("non-ascii entry", Some("{\"ami\":\"\u{09B8}\u{09BE}\u{09B2}\u{09BE}\u{09AE}\",\"hello\":\"\u{09B8}\u{09BE}\"}"))] {
+            o.cases += 1;
+            crate::verif_driver::reset_user_files();
+            let path = crate::verif_driver::user_file_path("autocorrect.json");
+            std::fs::write(&path, "{\"zzq\":\"kotha\"}").unwrap();
+            crate::verif_driver::set_mtime(&path, 1_000_000);
+            let r = std::panic::catch_unwind(std::panic::AssertUnwindSafe(|| {
+                let mut s = Sess::new(cfgv.clone());
+                let sg = s.typ("ami").unwrap();
+                match after { Some(a) => { std::fs::write(&path, a).unwrap(); crate::verif_driver::set_mtime(&path, 2_000_000); } None => { let _ = std::fs::remove_file(&path); } }
+                let cfg = make_config(&cfgv);
+                s.ctx.update_engine(&cfg);
+                if !sg.is_lonely() && sg.len() > 1 { s.commit((sg.previously_selected_index() + 1) % sg.len()); } else { s.finish(); }
+                let ended = !s.ctx.ongoing_input_session();
+                for t in ["ami", "hello", "zzq"] { let _ = s.typ(t); s.finish(); }
+                ended
+            }));
+            let hist = json!({"config": cfgv, "events": "autocorrect.json = {\"zzq\":\"kotha\"}; create context; type ami; change the file; update_engine; commit a non-preselected candidate; type ami, hello, zzq", "change": name, "autocorrect.json afterwards": after});
+            match r {
+                Err(_) => o.fail(json!({"clause": "C10 a user file damaged during a composition never stops the keyboard (panic after re-loading, committing or typing)", "history": hist})),
+                Ok(false) => o.fail(json!({"clause": "C10 a commit after a re-load inside a composition ends the session", "history": hist})),
+                Ok(true) => { o.nontrivial += 1; }
+            }
+        }
         // missing user-data directory
         o.cases += 1;
         crate::verif_driver::remove_user_dir();
@@ -822,7 +897,8 @@ mod api {
     pub(crate) fn update_engine(_bound: usize) -> Value {
         let mut o = Out::new("update_engine", 1, "user auto-correct edits (add / change / remove entry, remove file, damaged file) between two update_engine calls x words typed before the edit; option flips; phonetic <-> fixed");
         let cfgv = phon_cfg(json!({}));
-        let edits: [(&str, Option<&str>, Option<&str>); 6] = [
+        let edits: [(&str, Option<&str>, Option<&str>); 7] = [
+            ("non-ascii entry", Some("{\"zzq\":\"kotha\"}"), Some("{\"hello\":\"\u{09B8}\u{09BE}\u{09B2}\u{09BE}\u{09AE}\",\"zzq\":\"kotha\"}")),
             ("add", None, Some("{\"zzq\":\"kotha\"}")),
             ("change", Some("{\"zzq\":\"kotha\",\"hello\":\"salam\"}"), Some("{\"zzq\":\"amar\",\"hello\":\"salam\"}")),
             ("remove entry", Some("{\"zzq\":\"kotha\",\"hello\":\"salam\"}"), Some("{\"zzq\":\"kotha\"}")),
@@ -843,9 +919,12 @@ mod api {
             s.events.push(json!({"note": format!("user auto-correct edit: {}; then update_engine", name)}));
             let mut fresh = Sess::new(cfgv.clone());
             for w in ["hello", "zzq", "hellogulo", "zzqgulo", "kotha"] {
-                let a = s.typ(w).unwrap(); s.finish();
+                let r = std::panic::catch_unwind(std::panic::AssertUnwindSafe(|| { let a = s.typ(w).unwrap(); s.finish(); a }));
                 let b = fresh.typ(w).unwrap(); fresh.finish();
-                if !same(&a, &b) { o.fail(json!({"clause": "C11 edited user auto-correct list is honoured for every word after update_engine", "edit": name, "before": before, "after": after, "history": s.history(), "observed": show(&a), "expected": show(&b)})); }
+                match r {
+                    Ok(a) => if !same(&a, &b) { o.fail(json!({"clause": "C11 edited user auto-correct list is honoured for every word after update_engine", "edit": name, "before": before, "after": after, "history": s.history(), "observed": show(&a), "expected": show(&b)})); },
+                    Err(_) => { o.fail(json!({"clause": "C11 edited user auto-correct list is honoured for every word after update_engine", "edit": name, "before": before, "after": after, "history": s.history(), "observed": "panic", "expected": show(&b)})); break; }
+                }
             }
             o.nontrivial += 1;
         }
@@ -1036,6 +1115,31 @@ mod api {
                 }}}
             }
         }
+        // the same history under both settings: a quoted word, a non-preselected candidate committed, the word typed again
+        // (quoted, then bare) -- same lists (quotes mapped back) and same preselection at every step
+        for (quoted, bare) in [("\"sesh", "sesh"), ("'kotha'", "kotha"), ("(\"amar\")", "amar")] {
+            o.cases += 1;
+            let mut res: Vec<(Vec<(Vec<String>, usize)>, Value)> = Vec::new();
+            for smart in [true, false] {
+                crate::verif_driver::reset_user_files();
+                let mut s = Sess::new(phon_cfg(json!({"smart_quote": smart})));
+                let mut steps = Vec::new();
+                let a = s.typ(quoted).unwrap();
+                steps.push((texts(&a).iter().map(|x| uncurl(x)).collect::<Vec<_>>(), a.previously_selected_index()));
+                if a.len() > 1 { s.commit((a.previously_selected_index() + 1) % a.len()); } else { s.finish(); }
+                for t in [quoted, bare] {
+                    // the preselection is read after the last letter key (a closing quote key may carry the caller's selection)
+                    let b = s.typ(t).unwrap(); s.finish();
+                    steps.push((texts(&b).iter().map(|x| uncurl(x)).collect::<Vec<_>>(), b.previously_selected_index()));
+                }
+                res.push((steps, s.history()));
+            }
+            crate::verif_driver::reset_user_files();
+            if res[0].0 != res[1].0 {
+                o.fail(json!({"clause": "C17 same list and same preselection with the option on and off, also after a quoted word was learned", "history": res[0].1, "observed": res[0].0, "expected": res[1].0}));
+            }
+            o.nontrivial += 1;
+        }
         o.done()
     }
 
@@ -1066,6 +1170,38 @@ mod api {
                 }
             }
         }
+        // a choice learned outside ANSI mode (an emoji, the raw English text) and ANSI switched on afterwards -- on the live
+        // context and in a new one over the same user files: nothing that cannot be encoded is offered
+        let bad = |x: &String| x.chars().any(|c| c.is_ascii_alphabetic()) || x.chars().any(|c| (c as u32) >= 0x1F000 || ((c as u32) >= 0x2600 && (c as u32) < 0x2800));
+        for (w, later) in [("cool", "coolgulo"), ("smile", "smile")] {
+            for pick_english in [false, true] {
+                o.cases += 1;
+                crate::verif_driver::reset_user_files();
+                let off = phon_cfg(json!({"include_english": true, "ansi": false}));
+                let on = phon_cfg(json!({"include_english": true, "ansi": true}));
+                let mut s = Sess::new(off.clone());
+                let sg = s.typ(w).unwrap();
+                let list = texts(&sg);
+                let idx = if pick_english { list.iter().position(|x| x == w) } else { list.iter().position(|x| bad(x) && x != w) };
+                let idx = match idx { Some(i) => i, None => { s.finish(); continue; } };
+                s.commit(idx);
+                s.update(&{ let mut c = on.clone(); c["phonetic_suggestion"] = json!(true); c["smart_quote"] = json!(false); c });
+                let mut fresh = Sess::new(on.clone());
+                for t in [w, later] {
+                    for (name, ctx) in [("live context after update_engine", &mut s), ("new context over the same user files", &mut fresh)] {
+                        let g = ctx.typ(t).unwrap(); ctx.finish();
+                        let l = texts(&g);
+                        if l.iter().any(|x| bad(x)) {
+                            let mut h = ctx.history(); h["note"] = json!(format!("{}; the learned choice was made in this user directory with ANSI off: type {:?}, commit index {}", name, w, idx));
+                            o.fail(json!({"clause": "C16 ANSI: no emoji, emoticon-derived or raw English candidate (also when such a choice was learned before ANSI was switched on)", "history": h, "observed": l}));
+                        }
+                        for i in 0..l.len() { if g.get_pre_edit_text(i) != poriborton::bijoy2000::unicode_to_bijoy(&l[i]) { o.fail(json!({"clause": "C16 pre-edit == Bijoy encoding of the candidate", "history": ctx.history()})); } }
+                    }
+                }
+                o.nontrivial += 1;
+            }
+        }
+        crate::verif_driver::reset_user_files();
         o.done()
     }
 
